@@ -101,3 +101,6 @@ def run(ctx):
                        "a MERGE candidate is taken from the pre-statement snapshot without consulting the statement's own deletions: "
                        "MERGE after DELETE in one statement binds the deleted node and creates a relationship onto it (dangling after commit)", p.loc())
     ctx.floor("C14.3", "MERGE candidate pushes", n3, 2)
+    # a relationship staged and deleted again in one transaction must leave both adjacency maps, or it dangles in the committed run
+    from .c06 import keyed_by_rule
+    keyed_by_rule(ctx, "C14.4")
